@@ -21,6 +21,9 @@ def scenarios(rnd, quick, judge, multi=False, factory=None):
         # a fully consumed call returns its results also on a pool that was used before (left-overs of the earlier call)
         dict(pool="functor", nw=1, calls=[dict(n=1, chunk=1, ordered=True, lazy=True), dict(n=3, chunk=1, ordered=True, lazy=True)]),
         dict(pool="functor", nw=2, calls=[dict(n=2, chunk=1, ordered=False), dict(n=0, chunk=1, ordered=True), dict(n=3, chunk=2, ordered=True)]),
+        # None is an ordinary element of the input
+        dict(pool="functor", nw=2, calls=[dict(n=5, chunk=2, ordered=True, nones=True)]),
+        dict(pool="factory", nw=1, quota=2, calls=[dict(n=4, chunk=3, ordered=True, nones=True, lazy=True)]),
     ]
     for s in fixed:
         out.append(s)
